@@ -400,11 +400,23 @@ fn wait_race_scenario(flavor: Flavor, scen: u64, seed: u64) -> (Findings, Value)
 // C20
 // =============================================================================================
 
+/// "any positive cleanup interval": besides milliseconds the grid has two sub-millisecond intervals
+pub const CLEANUP_1NS: u64 = u64::MAX;
+pub const CLEANUP_1US: u64 = u64::MAX - 1;
+fn cleanup_of(v: u64) -> Option<Duration> {
+    match v {
+        0 => None,
+        CLEANUP_1NS => Some(Duration::from_nanos(1)),
+        CLEANUP_1US => Some(Duration::from_micros(1)),
+        ms => Some(Duration::from_millis(ms)),
+    }
+}
+
 fn grid_scenario(flavor: Flavor, cfgv: (usize, i64, usize, usize, bool, bool, u64), seed: u64) -> (Findings, Value) {
     let mut f = Findings::default();
     let (nc, mc, bs, bi, metrics, ignore, cleanup_ms) = cfgv;
-    let cfg = Cfg { num_counters: nc, max_cost: mc, buffer_size: bs, buffer_items: bi, metrics, ignore_internal: ignore, cleanup: if cleanup_ms == 0 { None } else { Some(Duration::from_millis(cleanup_ms)) }, collide: false, collide_zero_even: false, manual_ticker: false };
-    let desc = json!({"flavor": flavor.name(), "num_counters": nc, "max_cost": mc, "buffer_size": bs, "buffer_items": bi, "metrics": metrics, "ignore_internal_cost": ignore, "cleanup_ms": cleanup_ms, "seed": seed});
+    let cfg = Cfg { num_counters: nc, max_cost: mc, buffer_size: bs, buffer_items: bi, metrics, ignore_internal: ignore, cleanup: cleanup_of(cleanup_ms), collide: false, collide_zero_even: false, manual_ticker: false };
+    let desc = json!({"flavor": flavor.name(), "cleanup": format!("{:?}", cleanup_of(cleanup_ms)), "num_counters": nc, "max_cost": mc, "buffer_size": bs, "buffer_items": bi, "metrics": metrics, "ignore_internal_cost": ignore, "cleanup_ms": cleanup_ms, "seed": seed});
     let zero = nc == 0 || mc == 0 || bs == 0;
     let r = fresh(flavor, &cfg);
     if zero {
@@ -479,7 +491,7 @@ fn grid_scenario(flavor: Flavor, cfgv: (usize, i64, usize, usize, bool, bool, u6
                 f.add("C20", "op/unexpected-error", format!("clear() returned Err({e})"));
             }
         }
-        std::thread::sleep(Duration::from_millis(if cleanup_ms > 0 && cleanup_ms <= 5 { 12 } else { 1 }));
+        std::thread::sleep(Duration::from_millis(if cleanup_ms > 0 && (cleanup_ms <= 5 || cleanup_ms >= CLEANUP_1US) { 12 } else { 1 }));
     }
     // the workers are alive, wait() returns Ok, a final insert is still processed
     phase("wait");
@@ -522,7 +534,7 @@ pub fn grid_values(thorough: bool) -> Vec<(usize, i64, usize, usize, bool, bool,
     let mcs = [0i64, 1, 2, 10, -1, -100, 1 << 62];
     let bss = [0usize, 1, 2, 8];
     let bis = [0usize, 1, 2, 64];
-    let cls = [1u64, 1000, 0];
+    let cls = [1u64, 1000, 0, CLEANUP_1NS, CLEANUP_1US];
     let mut v = Vec::new();
     if thorough {
         for &nc in &ncs {
